@@ -12,3 +12,4 @@ pub mod fix;
 pub mod c10;
 pub mod project;
 pub mod c14;
+pub mod c15;
